@@ -46,6 +46,8 @@ class ExprMixin:
                 return cl.locals[name]
             cl = cl.closure
         if name in ('g_out', 'g_enc', 'g_dec') and self.spec_mode:
+            if self.in_old and name != 'g_out':
+                return self.old_ghost[name]
             return getattr(self, name)
         if name in self.spec_env and self.spec_mode:
             return self.spec_env[name]
@@ -135,10 +137,41 @@ class ExprMixin:
             return tuple(self.hashable(x) for x in v)
         raise Unsupported('unhashable / symbolic key %r' % (v,))
 
+    def is_pure_total(self, n):
+        """Expressions that cannot raise and have no side effects whatever the
+        values of their free names: safe to evaluate without forking."""
+        if isinstance(n, (ast.Name, ast.Constant)):
+            return True
+        if isinstance(n, ast.UnaryOp) and isinstance(n.op, ast.Not):
+            return self.is_pure_total(n.operand)
+        if isinstance(n, ast.BoolOp):
+            return all(self.is_pure_total(v) for v in n.values)
+        if isinstance(n, ast.Compare):
+            return all(isinstance(op, (ast.Is, ast.IsNot)) for op in n.ops) and \
+                self.is_pure_total(n.left) and all(self.is_pure_total(c) for c in n.comparators)
+        return False
+
+    def is_pure_bool(self, n):
+        if isinstance(n, ast.Constant):
+            return isinstance(n.value, bool)
+        if isinstance(n, ast.UnaryOp) and isinstance(n.op, ast.Not):
+            return self.is_pure_total(n.operand)
+        if isinstance(n, ast.BoolOp):
+            return all(self.is_pure_bool(v) for v in n.values)
+        if isinstance(n, ast.Compare):
+            return self.is_pure_total(n)
+        return False
+
     def ev_IfExp(self, e):
         c = self.truth(self.eval(e.test))
         if isinstance(c, bool):
             return self.eval(e.body if c else e.orelse)
+        if not self.spec_mode and self.is_pure_total(e.body) and self.is_pure_total(e.orelse):
+            a, b = self.eval(e.body), self.eval(e.orelse)
+            try:
+                return self.merge_ite(c, a, b)
+            except Unsupported:
+                pass
         if self.spec_mode:
             a, b = self.eval(e.body), self.eval(e.orelse)
             return self.merge_ite(c, a, b)
@@ -215,7 +248,7 @@ class ExprMixin:
 
     def ev_BoolOp(self, e):
         is_and = isinstance(e.op, ast.And)
-        if self.spec_mode:
+        if self.spec_mode or self.is_pure_bool(e):
             vals = []
             for x in e.values:
                 t = simp_bool(self.truth(self.eval(x)))
@@ -497,7 +530,10 @@ class ExprMixin:
                 item = self.unopt(item, node)
                 if item is None:
                     return False
-                return z3.Select(o.dom, zint(self.int_of(item)))
+                ki = zint(self.int_of(item))
+                if not any(z3.eq(ki, q) for q in self.bound_vars):
+                    self.touch_index(ki)
+                return z3.Select(o.dom, ki)
             return self.obj_contains(container, o, item, node)
         if str_kind(container) and str_kind(item):
             if not isinstance(container, SymStr) and not isinstance(item, SymStr):
